@@ -60,7 +60,7 @@ def run_jobs(jobs, timeout):
         while pending and len(running) < NCPU:
             a = pending.pop(0)
             p = subprocess.Popen([env.PY, "-m", "vlib.sched", json.dumps({k: v for k, v in a.items() if k != "kind"})],
-                                 stdout=subprocess.PIPE, stderr=subprocess.PIPE, cwd=env.VERIF, env=env.child_env("0"))
+                                 stdout=subprocess.PIPE, stderr=subprocess.DEVNULL, cwd=env.VERIF, env=env.child_env("0"))
             running.append((a, p))
         a, p = running.pop(0)
         try:
@@ -68,7 +68,7 @@ def run_jobs(jobs, timeout):
             if p.returncode == 0 and o.strip():
                 out.append((a, json.loads(o.decode().strip().splitlines()[-1]), None))
             else:
-                out.append((a, None, e.decode()[-500:]))
+                out.append((a, None, f"exit {p.returncode}"))
         except subprocess.TimeoutExpired:
             p.kill()
             p.communicate()
